@@ -1119,6 +1119,20 @@ def frontend_inputs(tier):
         add([b, 49], "byte")
         add([49, 46, b], "byte")
         add([49, 101, b, 50], "byte")
+    # a byte that is ALMOST a digit ('/' and ':' are the neighbours of '0'..'9'; digit | 0x80; digit - 0x20 / + 0x10) at every
+    # position of a digit run of 7..33 digits, in the integer, fraction and exponent runs: scanners that test several
+    # bytes at once (8-byte words, 16-byte vectors) have their own acceptance test for the full blocks
+    near = [0x2F, 0x3A, 0xB5, 0x00] if q else [0x2F, 0x3A, 0x3B, 0x40, 0x15, 0x1A, 0xB0, 0xB5, 0xB9, 0xBA, 0x00, 0xFF, 0x20, 0x49]
+    for L in ((8, 9, 16, 17, 33) if q else (7, 8, 9, 15, 16, 17, 24, 31, 32, 33)):
+        for b in near:
+            for pos in range(0, L):
+                run = [rng.choice(b"0123456789") for _ in range(L)]
+                run[pos] = b
+                if rng.random() < 0.25:
+                    run[rng.randrange(L)] = b
+                add(run, "near-digit-int")
+                add(list(b"1.") + run, "near-digit-frac")
+                add(list(rng.choice([b"1e", b"1e-", b"2.5E+"])) + [48] * rng.choice([0, 0, 6]) + run[:12], "near-digit-exp")
     # long literals: midpoints with signs and suffixes
     for F in (gen.F64, gen.F32):
         for ef in rng.sample(range(0, F.emaxfield), 8 if q else 120):
